@@ -820,9 +820,16 @@ impl<'a> Walker<'a> {
 
     fn block_cloned_macro(&mut self, body: &'a [Stmt], inner: usize, _name: &str) -> Result<(), CheckErr> {
         // ids of statements in macro bodies: the body stored in the symbol is a clone, so map by structural position
+        // the body of a macro is a block like any other: it has a start (`-`) and an end (`+`)
+        if let Some(pc) = self.target_pc() {
+            let _ = self.define(inner, "-", SymKind::Const, SymState::Known(Value::Int(pc)));
+        }
         self.hoist_macros(body, inner)?;
         for st in body {
             self.stmt(st, inner)?;
+        }
+        if let Some(pc) = self.target_pc() {
+            let _ = self.define(inner, "+", SymKind::Const, SymState::Known(Value::Int(pc)));
         }
         Ok(())
     }
